@@ -450,6 +450,8 @@ def contains_site(d, call):
     for x in walk(d):
         if x[0] == 'call' and len(x) > 4 and x[4] == call.bb and path_matches(call.f, x[1]) | (short(call.f) == x[1]):
             return True
+        if x[0] == 'bin' and len(x) > 4 and x[4] == call.bb:
+            return True  # comparison-operator call normalised to a bin node (site kept as 5th element)
     return False
 
 
